@@ -120,8 +120,9 @@ class Fragment:
     def elaborate(self, platform):
         return self
 
-    def _propagate_domains_down(self, hierarchy=("top",)):
+    def _propagate_domains_down(self, hierarchy=("top",), *, added=None):
         # For each domain defined in this fragment, ensure it also exists in all subfragments.
+        # If `added` is a list, each (fragment, domain name) pair added here is appended to it.
         for i, (subfrag, name, src_loc) in enumerate(self.subfragments):
             hier_name = name
             if hier_name is None:
@@ -130,10 +131,12 @@ class Fragment:
             for domain in self.iter_domains():
                 if domain not in subfrag.domains:
                     subfrag.add_domains(self.domains[domain])
+                    if added is not None:
+                        added.append((subfrag, domain))
 
-            subfrag._propagate_domains_down(hierarchy + (hier_name,))
+            subfrag._propagate_domains_down(hierarchy + (hier_name,), added=added)
 
-    def _create_missing_domains(self, missing_domain, *, platform=None):
+    def _create_missing_domains(self, missing_domain, *, platform=None, added=None):
         from ._xfrm import DomainCollector
 
         collector = DomainCollector()
@@ -148,6 +151,8 @@ class Fragment:
                 raise _cd.DomainError(f"Domain '{domain_name}' is used but not defined")
             if type(value) is _cd.ClockDomain:
                 self.add_domains(value)
+                if added is not None:
+                    added.append((self, domain_name))
                 # And expose ports on the newly added clock domain, since it is added directly
                 # and there was no chance to add any logic driving it.
                 new_domains.append(value)
@@ -163,10 +168,10 @@ class Fragment:
                 self.add_domains(new_fragment.domains.values())
         return new_domains
 
-    def _propagate_domains(self, missing_domain, *, platform=None):
-        self._propagate_domains_down()
-        new_domains = self._create_missing_domains(missing_domain, platform=platform)
-        self._propagate_domains_down()
+    def _propagate_domains(self, missing_domain, *, platform=None, added=None):
+        self._propagate_domains_down(added=added)
+        new_domains = self._create_missing_domains(missing_domain, platform=platform, added=added)
+        self._propagate_domains_down(added=added)
         return new_domains
 
     def _prepare_ports(self, ports):
@@ -211,8 +216,22 @@ class Fragment:
 
         ports = self._prepare_ports(ports)
 
+        # Fragments that are written by the user (e.g. instances) are part of this hierarchy as they
+        # are, and may be elaborated again; the domains added to them here are removed again once
+        # the hierarchy has been lowered.
+        added_domains = []
+        try:
+            return self._prepare(ports, added_domains, hierarchy=hierarchy,
+                missing_domain=missing_domain, propagate_domains=propagate_domains)
+        finally:
+            for fragment, domain_name in added_domains:
+                del fragment.domains[domain_name]
+
+    def _prepare(self, ports, added_domains, *, hierarchy, missing_domain, propagate_domains):
+        from ._xfrm import DomainLowerer
+
         if propagate_domains:
-            new_domains = self._propagate_domains(missing_domain)
+            new_domains = self._propagate_domains(missing_domain, added=added_domains)
             for domain in new_domains:
                 ports.append((None, domain.clk, PortDirection.Input))
                 if domain.rst is not None:
